@@ -15,7 +15,8 @@ C(r, u, k, g) == r @@ [uses |-> u, kills |-> k, gives |-> g]
 HeadC(n_) == C([op |-> "head", n |-> n_], {}, {}, {})
 HeadX(f_, cmp_, k_, n_, nul_, keeplast_) == C([op |-> "headx", f |-> f_, cmp |-> cmp_, k |-> k_, n |-> n_, nul |-> nul_, keeplast |-> keeplast_], {f_}, {}, {})
 TailC(n_) == C([op |-> "tail", n |-> n_], {}, {}, {})
-Dedup(fs_, lim_, consec_, keepempty_) == C([op |-> "dedup", fs |-> fs_, lim |-> lim_, consec |-> consec_, keepempty |-> keepempty_], ToSet(fs_), {}, {})
+Dedup(fs_, lim_, consec_, keepempty_) == C([op |-> "dedup", fs |-> fs_, lim |-> lim_, consec |-> consec_, keepempty |-> keepempty_, keepevents |-> FALSE], ToSet(fs_), {}, {})
+DedupKE(fs_, lim_, consec_, keepempty_) == C([op |-> "dedup", fs |-> fs_, lim |-> lim_, consec |-> consec_, keepempty |-> keepempty_, keepevents |-> TRUE], ToSet(fs_), {}, {})
 Sort(f_, asc_, lim_) == C([op |-> "sort", f |-> f_, asc |-> asc_, lim |-> lim_], {f_}, {}, {})
 Where(f_, k_) == C([op |-> "where", f |-> f_, k |-> k_], {f_}, {}, {})
 FieldsKeep(fs_) == C([op |-> "fields", keep |-> TRUE, fs |-> fs_], fs_, (Base \cup {"d", "n", "cnt", "sm"}) \ fs_, {})
@@ -65,7 +66,16 @@ Later == {Where("n", 1), Where("d", 2), Sort("d", TRUE, 0), Sort("n", FALSE, 0),
 
 Cmds == Streaming \cup Blocking
 CmdsAll == Cmds \cup SSWindow \cup SSRoc
-Singles == {<<c>> : c \in Cmds \cup HeadXs}
+(* further dedup forms: keepevents, consecutive with limit / keepevents / keepempty *)
+DedupMore == {DedupKE(<<"a">>, 1, FALSE, FALSE), DedupKE(<<"b">>, 1, FALSE, FALSE), Dedup(<<"a">>, 2, TRUE, FALSE),
+              DedupKE(<<"a">>, 1, TRUE, FALSE), Dedup(<<"b">>, 1, TRUE, TRUE)}
+Singles == {<<c>> : c \in Cmds \cup HeadXs \cup DedupMore}
+(* Rewind obligation: every streaming command that keeps state across batches (head, head <expr>, dedup in all forms,
+   streamstats) in front of a two-pass command.  The rows the user sees are those of the SECOND pass, so Rewind() must
+   bring the command back to its initial state - whatever the first pass left behind (a run that ended with the key the
+   stream starts with, a reached limit, running sums ...). *)
+StatefulStreaming == {c \in Streaming \cup HeadXs \cup DedupMore \cup SSWindow \cup SSRoc : c.op \in {"head", "headx", "dedup", "streamstats"}}
+RewindChains == {ch \in {<<c, t>> : c \in StatefulStreaming, t \in {Fillnull(0, {}), Bin2("a")}} : Valid(ch)}
 (* the two-pass commands once more, alone and behind a streaming command, for the configuration with three distinct
    values of `a` and four rows: a later batch can then extend what the first pass has learnt at both ends *)
 TwoPassChains == {<<Bin2("a")>>, <<Fillnull(0, {})>>, <<Where("b", 0), Bin2("a")>>, <<HeadC(3), Bin2("a")>>, <<Bin2("a"), TailC(2)>>,
